@@ -18,18 +18,18 @@
 /// logic.
 
 #[test]
-fn kani_concrete_playback_c12_wordlike_4_16836529028803579047() {
+fn kani_concrete_playback_c12_wordlike_4_7623327665504788248() {
     let concrete_vals: Vec<Vec<u8>> = vec![
-        // 43
-        vec![43],
-        // 110
-        vec![110],
-        // 97
-        vec![97],
-        // 110
-        vec![110],
-        // 1
-        vec![1],
+        // 116
+        vec![116],
+        // 82
+        vec![82],
+        // 85
+        vec![85],
+        // 101
+        vec![101],
+        // 0
+        vec![0],
     ];
     kani::concrete_playback_run(concrete_vals, c12_wordlike_4);
 }
